@@ -330,9 +330,9 @@ func appendPBDesigns(replay bool) []core.Design {
 			}
 			res = append(res, gen.APICase("slicenb", nv, true, gen.ClauseCtors(base), false, nil, gen.Cfg(false, 0, 0, false, false, true), ev))
 		}
-		if env.Quick() && len(res) > 5000 {
+		if max := env.Pick(5000, 60000); len(res) > max { // a seeded sample of the enumerated pairs
 			env.Rand.Shuffle(len(res), func(i, j int) { res[i], res[j] = res[j], res[i] })
-			res = res[:5000]
+			res = res[:max]
 		}
 		return res
 	}
